@@ -48,7 +48,7 @@ type c07Layers struct {
 
 func init() {
 	register(&Prop{ID: "C07", Run: c07Run,
-		Rule: "pairs of root containers over path-safe keys (two key pools, one with keys such as a / a-b / aB / a_ whose paths interleave with a. and a[ in byte order): R is L after 0-4 random local edits (key added/removed, leaf changed, kind changed, list edited), or an independent document, or a copy, or a copy differing in exactly one scalar by a confusable pair (same number under another Go type, neighbouring integers beyond 2^53, a value and its printed text); overlay cases hold 0-3 named layers per side; 900 pairs in which a composite subtree of L occurs at two or three positions and is ONE node object there (R lacks a key above it, is empty, independent, or a near miss; sides swapped one time in three); 500 pairs whose L is diffed, edited in place 1-4 times (AddValue / Remove / Set / MustSet / Append / Clear through nested builders, Lookup, the root's path API) and diffed again against the content it must hold then and against a freshly built document; 700 pairs whose documents hold IMMUTABLE nodes: one composite position in three (lists and containers, either side or both) is attached as the sealed view (ListBuilder.Seal / ContainerBuilder.Seal) of its builder, one time in three the sealed roots are what Diff is given, one time in three L is edited in between through the kept builders; the sequence returned by the first call is re-read after twenty later calls; 1200 pairs (plus overlay and domdiff cases) whose member names are arbitrary TEXT free of the path metacharacters '.', '[' and ']' (names with %, #, :, /, *, \\, white space, non-ASCII characters, numerals), lists frequent; domdiff cases go through the pipeline template engine. A pair is non-trivial when Diff(L,R) is non-empty or both documents have more than one node; distinct = distinct canonical case JSON (hash).",
+		Rule: "pairs of root containers over path-safe keys (two key pools, one with keys such as a / a-b / aB / a_ whose paths interleave with a. and a[ in byte order): R is L after 0-4 random local edits (key added/removed, leaf changed, kind changed, list edited), or an independent document, or a copy, or a copy differing in exactly one scalar by a confusable pair (same number under another Go type, neighbouring integers beyond 2^53, a value and its printed text); overlay cases hold 0-3 named layers per side; 900 pairs in which a composite subtree of L occurs at two or three positions and is ONE node object there (R lacks a key above it, is empty, independent, or a near miss; sides swapped one time in three); 500 pairs whose L is diffed, edited in place 1-4 times (AddValue / Remove / Set / MustSet / Append / Clear through nested builders, Lookup, the root's path API) and diffed again against the content it must hold then and against a freshly built document; 700 pairs whose documents hold IMMUTABLE nodes: one composite position in three (lists and containers, either side or both) is attached as the sealed view (ListBuilder.Seal / ContainerBuilder.Seal) of its builder, one time in three the sealed roots are what Diff is given, one time in three L is edited in between through the kept builders; the sequence returned by the first call is re-read after twenty later calls; 1200 pairs (plus overlay and domdiff cases) whose member names are arbitrary TEXT free of the path metacharacters '.', '[' and ']' (names with %, #, :, /, *, \\, white space, non-ASCII characters, numerals), lists frequent; domdiff cases go through the pipeline template engine; 500 pairs (kind zoned) whose scalars are mostly timestamps, the documents holding instants and each side spelling its time leaves in zones of its own (1-3 offsets per side, applied cyclically in document order; R a copy, a near miss or independent): the same instant in another zone is the same value (Leaf.Equals / Container.Equals), so Diff must be empty when the instants agree, must report exactly the reference difference computed on instants otherwise, both ways round, and a Change never carries two values that are equal. A pair is non-trivial when Diff(L,R) is non-empty or both documents have more than one node; distinct = distinct canonical case JSON (hash).",
 		Assumptions: []string{"scalars are NaN-free and -0-free, so cmp.Equal on leaves coincides with equality of (Go type, fmt.Sprint) pairs",
 			"keys are non-empty and path-safe: free of the three path metacharacters '.', '[' and ']' (most pools are over [A-Za-z0-9_-]; the text pools hold any other characters, valid UTF-8); Lean's String order (code points) equals Go's byte order on valid UTF-8",
 			"the statement's 'Delete immediately followed by Adds' is read as the quantifier text spells it out: the sequence is sorted by path and, among equal paths, the Delete precedes the Add; with a sibling key such as a-b or aB the block Delete a / Add a[0] is not contiguous after sorting (Delete a, Add a-b, Add a[0])"}})
@@ -214,7 +214,8 @@ func c07Run(c *Ctx) {
 	}
 	c07RunText(c)
 	c07RunBig(c)
-	c07RunHist(c) // c07_hist.go
+	c07RunHist(c)  // c07_hist.go
+	c07RunZoned(c) // c07_zone.go
 }
 
 // c07BigDocs: a pair of documents that differ at MANY positions (about 260-700 modifications): 4-12 groups of scalar
@@ -733,6 +734,7 @@ func c07CheckPair(c *Ctx, p c07Pair, l, r dom.Container, label string, withModel
 	}
 	ok := c.Direct("diff-self-empty"+label, len(ll) == 0 && len(rr) == 0, map[string]any{"Diff(L,L)": ll, "Diff(R,R)": rr})
 	ok = c.Direct("equal-documents-give-empty-diff"+label, !same || len(ms) == 0, ms) && ok
+	ok = c.Direct("equal-documents(Container.Equals)-give-empty-diff"+label, !l.Equals(r) || len(ms) == 0, ms) && ok
 	ok = c.Direct("empty-diff-implies-same-flatten"+label, len(ms) != 0 || canon(lflat) == canon(rflat),
 		map[string]any{"Flatten(L)": lflat, "Flatten(R)": rflat}) && ok
 	if label == "" {
@@ -787,6 +789,8 @@ func c07Eval(c *Ctx, kind string, raw []byte) {
 	switch kind {
 	case "afterfail":
 		c07EvalAfterFail(c, raw) // c07_hist.go
+	case "zoned":
+		c07EvalZoned(c, raw) // c07_zone.go
 	case "pair":
 		var p c07Pair
 		if err := json.Unmarshal(raw, &p); err != nil {
